@@ -1,15 +1,15 @@
-\* thorough tier: 4 threads x 1 round per phase x 2 phases, creation may fail
-\* (4 threads x 2 rounds, MayFail = FALSE: 20 457 759 distinct states, depth 78, no error -- checked once by hand, 19 min, too slow for the tier)
+\* quick tier, poisoned pool mutex: 3 threads x 1 round per phase x 2 phases (one pool-wide reset), a get may panic inside its critical section (create branch); guard
+\* drops, later gets and the drop of the pool must behave exactly as without the panic (every arena comes back, none is lost)
 SPECIFICATION Spec
 CONSTANTS
-    Threads = {t1, t2, t3, t4}
+    Threads = {t1, t2, t3}
     MaxRounds = 1
     MaxChunks = 1
     MaxPoolOps = 1
     CreateUnderLock = TRUE
-    MayFail = TRUE
+    MayFail = FALSE
     MayForget = FALSE
-    MayPanic = FALSE
+    MayPanic = TRUE
 SYMMETRY Symm
 INVARIANTS TypeOK MutexOK OwnerOK Exclusive IdleDisjoint Conservation ReuseOK ReuseTight DataIntact
 PROPERTIES DecideCreateOnlyWhenIdleEmpty CreatedOnlyWhenIdleEmpty BlocksOnlyForgottenByPoolOps ResetRewindsAll DropReleasesAll LeakedStayValid
